@@ -302,7 +302,10 @@ class Builder(object):
         return ('and',) + tuple(parts)
 
     def t_IfExp(self, node):
-        return ('ifexp', simp(self.t(node.test)), simp(self.t(node.body)), simp(self.t(node.orelse)))
+        c, a, b = simp(self.t(node.test)), simp(self.t(node.body)), simp(self.t(node.orelse))
+        if c == a:
+            return ('or', a, b)          # x if x else d  is  x or d
+        return ('ifexp', c, a, b)
 
     # bound variables (lambda arguments, comprehension targets) are alpha-renamed to canonical
     # names so that renaming them does not change the term
